@@ -314,6 +314,13 @@ def check_unary(ctx, lib, c):
         gv = got * Rinv % p
         ctx.count(c, nontriv or s in (0, 1), "%s-sqrt" % fld)
         expect(got < p and gv * gv % p == s and gv in (val, (p - val) % p), sig + "/value", lambda: "s=%x got=%x" % (s, gv))
+        # related calls: the root of 4s (= +-2a), of s again in place (Fq only: Fr::square_root declares its argument __restrict,
+        # so an in-place call is outside its contract), and of s once more
+        for what, v2, inplace in (("4s", 2 * val % p, False), ("s again, in place", val, fld == "fq"), ("s again", val, False)):
+            s2 = v2 * v2 % p
+            o2 = lib.op("%s_sqrt" % fld, conv.bi(s2 * R % p, bits), alias="a" if inplace else None)[1]
+            g2 = conv.ib(o2) * Rinv % p
+            expect(g2 in (v2, (p - v2) % p), sig + "/after-related-call", lambda: "s=%x, then sqrt(%s): got %x" % (s, what, g2))
     elif op == "exp":
         w, e = c["w"], c["e"]
         rv, out = lib.call(f["exp"], nb, w, "O", A, conv.bi(e, w))
@@ -322,6 +329,13 @@ def check_unary(ctx, lib, c):
         lead0 = e.bit_length() <= w - 32
         ctx.count(c, nontriv or lead0 or e >= p, "%s-exp%d" % (fld, w) + (":lead0" if lead0 else ""))
         expect(rv == 0 and got < p and got == exp, sig + "/value", lambda: "a=%x e=%x w=%d got=%x expected=%x" % (a, e, w, got, exp))
+        # related calls: the same exponent on -a, then the result as the next base
+        na = (p - a) % p
+        o2 = lib.call(f["exp"], nb, w, "O", conv.bi(na, bits), conv.bi(e, w))[1]
+        e2 = pow(p - val, e, p) * R % p
+        expect(conv.ib(o2) == e2, sig + "/after-related-call/negated", lambda: "a=%x e=%x w=%d: (-a)^e after a^e = %x" % (a, e, w, conv.ib(o2)))
+        o3 = lib.call(f["exp"], nb, w, "O", o2, conv.bi(e, w))[1]
+        expect(conv.ib(o3) == pow(e2 * Rinv % p, e, p) * R % p, sig + "/after-related-call/result-as-base", lambda: "a=%x e=%x w=%d" % (a, e, w))
     elif op == "cmp":
         b = c["b"]
         Bb = conv.bi(b, bits)
